@@ -1,0 +1,18 @@
+//go:build verif
+// +build verif
+
+// Replay of cached vote messages for the verification harness under /verif (property C03):
+// what Voter.eventLoop does with a VoteMsgEvent posted by MessageHandler.processCachedMsgs,
+// on the caller's goroutine.  Compiled only with -tags verif; add-only.
+
+package ucon
+
+import (
+	"github.com/youchainhq/go-youchain/common"
+)
+
+// VerifVoteMsgEvent is the VoteMsgEvent arm of Voter.eventLoop.
+func (v *Voter) VerifVoteMsgEvent(ev VoteMsgEvent) (error, bool) { return v.processVoteMsg(ev, msgSame) }
+
+// VerifSender returns the address the outer message signature of a cached vote message recovered to.
+func (m *CachedVotesMessage) VerifSender() common.Address { return m.addr }
